@@ -37,20 +37,37 @@ def parseMKind : String → MKind
 def showConv : Conv → String
   | .int => "int" | .str => "str" | .float => "float" | .literal => "literal" | .dotted => "dotted" | .bool => "bool"
 
+def decodeWord (h i bits : String) : Word :=
+  let b := bits.toList
+  { text := unhex h, int? := if i == "-" then none else i.toInt?,
+    floatOk := b.getD 0 '0' == '1', litOk := b.getD 1 '0' == '1', dotOk := b.getD 2 '0' == '1' }
+
+/-- one further letter of a single-dash string: `<letter>/~` (nothing behind it) or `<letter>/<text>/<int or ->/<bits>` -/
+def decodePair (s : String) : Option (Char × Option Word) :=
+  match s.splitOn "/" with
+  | [hc, "~"] => match unhex hc with
+    | [c] => some (c, none)
+    | _ => none
+  | [hc, hv, i, bits] => match unhex hc with
+    | [c] => some (c, some (decodeWord hv i bits))
+    | _ => none
+  | _ => none
+
 def decodeTok (s : String) : Tok :=
   match s.splitOn ":" with
-  | ["w", h, i, bits] =>
-    let b := bits.toList
-    .word { text := unhex h, int? := if i == "-" then none else i.toInt?,
-            floatOk := b.getD 0 '0' == '1', litOk := b.getD 1 '0' == '1', dotOk := b.getD 2 '0' == '1' }
+  | ["w", h, i, bits] => .word (decodeWord h i bits)
   | ["s", h] => match unhex h with
     | [c] => .short c
     | _ => .other
   | ["l", h] => .long (unhex h)
   | ["e", hn, hv, i, bits] =>             -- `--name=value`: name, value text, and the value's converter bits as for a word
-    let b := bits.toList
-    .eq (unhex hn) { text := unhex hv, int? := if i == "-" then none else i.toInt?,
-                     floatOk := b.getD 0 '0' == '1', litOk := b.getD 1 '0' == '1', dotOk := b.getD 2 '0' == '1' }
+    .eq (unhex hn) (decodeWord hv i bits)
+  | ["a", hc, e, hv, i, bits, ps] =>      -- `-cREST` / `-c=REST`: letter, `=` taken away?, REST as a word, REST letter by letter
+    let pairs := (ps.splitOn ",").filter (· ≠ "") |>.map decodePair
+    match unhex hc with
+    | [c] => if pairs.all Option.isSome then .attached c (e == "1") (decodeWord hv i bits) (pairs.filterMap id) else .other
+    | _ => .other
+  | ["p"] => .sep                          -- the first `--` of the line
   | _ => .other
 
 def showAtom : Atom → String
